@@ -183,15 +183,19 @@ Fixpoint fs_parse_nlris (fuel : nat) (d : bytes) : res (list (list (N * comp))) 
   end.
 Definition fs_parse_all (d : bytes) := fs_parse_nlris (S (length d)) d.
 
-(** MpReachNLRI.construct (1, 133): next hop = 4 packed octets, or nothing when the text is not
+(** MpReachNLRI.construct (1, 133): next hop = netaddr.IPAddress(text).packed - 4 octets for an
+    IPv4 address (false, a), 16 for an IPv6 address (true, a) - or nothing when the text is not
     an address; None when the NLRI is empty *)
-Definition reachfs_construct (nh : option N) (fs : list flow) : res (option bytes) :=
-  let nhb := match nh with Some a => be 4 a | None => [] end in
+Definition reachfs_construct_x (nh : option (bool * N)) (fs : list flow) : res (option bytes) :=
+  let nhb := match nh with Some (nh6, a) => if nh6 then be 16 a else be 4 a | None => [] end in
   bind (fs_construct fs) (fun nlri =>
   match nlri with
   | [] => Ok None
   | _ => bind (reach_attr AFI_INET SAFI_FSPEC_RULE (len nhb) nhb nlri) (fun b => Ok (Some b))
   end).
+(** an IPv4 next hop or none *)
+Definition reachfs_construct (nh : option N) : list flow -> res (option bytes) :=
+  reachfs_construct_x (match nh with Some a => Some (false, a) | None => None end).
 
 Definition reachfs_parse (v : bytes) : res (option addr * list (list (N * comp))) :=
   bind (reach_split v) (fun '(afi, safi, nh, nlri) =>
